@@ -38,6 +38,9 @@ def gen_cases(seed, tier):
     for s in docgen.exhaustive(['$', 'a'], 8 if quick else 10):
         if len(s) > L:
             cases.append(PC.mk_case('default', s, False, 'exhaustive-dollars'))
+    for s in docgen.exhaustive(['$', 'a', ' '], 7 if quick else 8):
+        if ' ' in s and '$' in s:
+            cases.append(PC.mk_case('default', s, False, 'exhaustive-dollars-spaces'))
     extra = ['\\text', '\\ensuremath', '\\mbox', '\\begin{equation}', '\\end{equation}', '\\begin{align*}', '\\end{align*}',
              '\\frac', '$$', '\\textbf']
     for _ in range(1500 if quick else 20000):
@@ -149,19 +152,24 @@ def oracle(c):
     d = c['desc']
     r = PC.real_parse(d)
     if r[0] != 'ok' or r[1] is None:
+        s = d['s']
+        if r[0] == 'err' and s and set(s) <= {'$', 'a', ' '} and d['ctx'] == 'default':
+            ref = _dollar_reference(s)
+            if ref is not None and all(k == 'chars' or t.strip() for k, t in ref):
+                return ('well-formed-dollar-document-rejected', {'expected': ref, 'error_pos': r[1].pos})
         return None
     res = _check(r[1], (False, None), [])
     if res:
         return res
     s = d['s']
-    if s and set(s) <= {'$', 'a'}:
+    if s and set(s) <= {'$', 'a', ' '}:
         ref = _dollar_reference(s)
         if ref is not None:
             got = []
             for n in r[1]:
                 k = treedump.kind(n)
                 if k == '$':
-                    got.append((n.displaytype, ''.join(x.latex_verbatim() for x in n.nodelist)))
+                    got.append((n.displaytype, s[n.pos + len(n.delimiters[0]):n.pos_end - len(n.delimiters[1])]))
                 else:
                     got.append(('chars', n.latex_verbatim()))
             if got != ref:
